@@ -402,18 +402,37 @@ def _cond_delim(p, cls, m, n, port):
     return False, 'separator flag is set under `{}`'.format(t)
 
 
+def _guard_atoms(node, stop):
+    """conditions known to hold at node: tests of the enclosing ifs (negated for else arms), conjunctions flattened"""
+    from ..pathsem import atoms
+    conds = []
+    cur = node
+    while cur is not None and cur is not stop:
+        par = getattr(cur, 'parent', None)
+        if isinstance(par, ast.If) and cur is not par.test:
+            if cur in par.body:
+                conds.append((par.test, True))
+            elif cur in par.orelse:
+                conds.append((par.test, False))
+        cur = par
+    return atoms(conds)
+
+
 def _cond_defect(p, cls, m, n, port):
-    iff, in_body = _enclosing_if(n)
-    if iff is None:
+    ats = _guard_atoms(n, m)
+    if not ats:
         return False, 'defective-line flag set unconditionally'
-    t = iff.test
-    ok_once = isinstance(t, ast.Compare) and dotted(t.left) == 'self.first_defective_line' and is_none(t.comparators[0]) and isinstance(t.ops[0], ast.Is) and in_body
-    if not ok_once:
-        return False, 'the first defective line is not recorded set-once (`{}`)'.format(node_text(t))
+    once = [a for a, pol in ats if pol and isinstance(a, ast.Compare) and dotted(a.left) == 'self.first_defective_line' and is_none(a.comparators[0]) and isinstance(a.ops[0], (ast.Is, ast.Eq))]
+    if not once:
+        return False, 'the first defective line is not recorded set-once (guards: `{}`)'.format(' and '.join(node_text(a, 60) for a, _ in ats))
     if dotted(n.value) != 'self.NL':
         return False, 'the recorded line number is `{}` instead of the physical line counter'.format(node_text(n.value))
-    outer, in_outer = _enclosing_if(iff)
-    if outer is None or dotted(outer.test) != 'warning' or not in_outer:
+    # the splitter's warning: second component of the pair returned by the splitting call
+    wnames = set()
+    for d in walk_no_nested(m):
+        if isinstance(d, ast.Assign) and isinstance(d.targets[0], (ast.Tuple, ast.List)) and len(d.targets[0].elts) == 2 and isinstance(d.value, ast.Call) and isinstance(d.targets[0].elts[1], ast.Name):
+            wnames.add(d.targets[0].elts[1].id)
+    if not any(pol and isinstance(a, ast.Name) and a.id in wnames for a, pol in ats):
         return False, 'the defective-line flag is not guarded by the splitter\'s warning'
     return True, 'set once, to the physical line number, when the splitter reports a warning'
 
